@@ -11,6 +11,6 @@ INIT InitE
 NEXT Next
 VIEW View
 ${EMIT}
-INVARIANTS TypeOK Exact AddEquiv LastIsNewest Refinement RingLargeEnough ClearedDef
+INVARIANTS TypeOK Exact AddEquiv LastIsNewest Refinement ClearedDef
 PROPERTIES Inert Monotone
 CHECK_DEADLOCK FALSE
